@@ -235,11 +235,9 @@ def h_threads(ctx, a, b):
     solver, clk, nd = _encode(steps)
     ctx.note("rf_candidates", nd)
     ctx.note("rf_sample", [repr(x)[:300] for x in DEBUG[:4]])
-    if nd == 0:
-        ctx.check(LABEL, True, decided_by_solver=False)
-        ctx.check("threads share no location that one writes and the other reads with a different value", True)
-        return
     import z3
+    if nd == 0:
+        solver.add(z3.BoolVal(False))  # empty disjunction: no read can take a differing foreign value
     r = solver.check()
     ctx.ex.stats.solver_calls += 1
     if r == z3.unsat:
